@@ -56,6 +56,12 @@ fn op_eval(job: &J) -> Result<J, String> {
         "remaining": [remaining.cpu, remaining.mem],
         "logs": machine.traces.iter().map(|t| t.to_string()).collect::<Vec<_>>(),
     });
+    // what `EvalResult::cost()` (Program::eval*, tx simulation, `aiken uplc eval`) reports for this run:
+    // the repository's own `initial_budget - remaining_budget`
+    match vh::util::guarded(|| budget - remaining) {
+        Ok(c) => out["cost_api"] = json!([c.cpu, c.mem]),
+        Err(p) => out["cost_api_panic"] = json!(p),
+    }
     match res {
         Ok(t) => {
             out["ok"] = tj::term_to_json(&t);
